@@ -146,12 +146,7 @@ func (d *detSet) ruleForkJoin(R string, only func(f *ssa.Function) bool) int {
 				return ""
 			},
 			resets: map[string][]string{"spawn": {"Wait"}},
-			atom: func(v ssa.Value) (string, bool) {
-				if b, ok := v.(*ssa.BinOp); ok && b.Op == token.LSS && spawnCounter(b.Y) {
-					return "collected<spawned", false
-				}
-				return "", false
-			},
+			atom:   ordAtom("collected<spawned", token.LSS, func(x ssa.Value) bool { return !spawnCounter(x) }, spawnCounter),
 			target: func(in ssa.Instruction, st *PState, e *pathEngine) string {
 				if _, ok := in.(*ssa.Return); ok && in.Parent() == e.r.Fn {
 					return "return"
@@ -601,23 +596,19 @@ func c08(c *ctx) {
 					}
 					return ""
 				},
-				atom: func(v ssa.Value) (string, bool) {
-					if b, ok := v.(*ssa.BinOp); ok && b.Op == token.LSS && len(counterIncrements(b.Y)) > 0 {
+				atom: ordAtom("collected<spawned", token.LSS,
+					func(x ssa.Value) bool { return true },
+					func(y ssa.Value) bool {
 						// the bound is the counter incremented next to the go statement
-						for _, bo := range counterIncrements(b.Y) {
-							hasGo := false
+						for _, bo := range counterIncrements(y) {
 							for _, in := range bo.Block().Instrs {
 								if _, ok := in.(*ssa.Go); ok {
-									hasGo = true
+									return true
 								}
 							}
-							if hasGo {
-								return "collected<spawned", false
-							}
 						}
-					}
-					return "", false
-				},
+						return false
+					}),
 				target:    tgtCall("merge", merge),
 				reqs:      func(string) []string { return []string{"@collected<spawned=F"} },
 				minTarget: 1,
